@@ -43,8 +43,10 @@ impl Write for Connection {
             }
             Self::Tcp(ref mut w) => {
                 // todo: reconnect if conn is broken
-                let n = w.write(buf)?;
-                Ok(w.write(b"\n")? + n)
+                // the trailing newline is framing, not part of what the caller handed over
+                w.write_all(buf)?;
+                w.write_all(b"\n")?;
+                Ok(buf.len())
             }
             Self::Udp(ref socket) => {
                 // ??
